@@ -24,17 +24,23 @@ TEXT["http"] = ("The same TLC-generated and random store behaviours are executed
                 "on the unix socket; raw requests; NDJSON and SSE renderings compared) together with 34 malformed-request classes; the "
                 "recorded trace carries every response status and is validated by TLC against TraceStore (store semantics via XsProps, "
                 "status classes, 'failure changes nothing' via raw partition dumps before/after, server still answers).")
+TEXT["codec"] = ("XsCodec transcribes the TTL and read-option grammar (parse_ttl, FollowOption, deserialize_bool, to_query) at token level; TLC checks "
+                 "Parse(Render(v)) = v and rejection of malformed input over the whole alphabet and emits one vector per enumerated input; every vector is run "
+                 "through the real parsers and renderers (string, query-string and JSON spellings, plus 2000 seeded whole-ReadOptions round trips) and the results are "
+                 "validated by TLC against the same operators.")
 NOTE = {
+ "codec": "Trusted: the transcription is checked against the code by the vectors themselves. Limit of the technique (DESIGN 5, C12): the grammar is exhaustive at token level, data values are classes.",
  "http": "Trusted: the harness' raw HTTP client and response parser. Bounded: one request per connection; follow routes over HTTP are exercised separately.",
  "conc": "Trusted: TLC, the gate hooks (events are logged under one mutex after the state change), rank abstraction of ids. Bounded: MC_conc_*.cfg constants; schedules sampled.",
  "store": "Trusted: TLC, the harness' abstraction of concrete values back to model tokens, the xs_verif hooks (virtual clock, GC gate, raw dump). Bounded: model constants in spec/MC_store_*.cfg; behaviours sampled, not enumerated.",
 }
 TECH = {
+ "codec": "TLC enumeration of a TLA+ transcription of the codec + one implementation test per model case, results validated by TLC",
  "http": "TLC trace validation (TraceStore + status rules) of model-generated behaviours executed over HTTP, plus malformed request classes",
  "conc": "TLC model checking of XsConcurrent + gate-scheduled replay/exploration of real threads + TLC trace validation (TraceFollow)",
  "store": "TLC model checking of XsStore + TLC trace validation (TraceStore) of replayed behaviours on the real store",
 }
-DESIGN = {"http": "DESIGN.md 5 (C13), Appendix D","conc": "DESIGN.md 3, 4.1, 5 (C02 C03 C11)", "store": "DESIGN.md 3, 4, 5 (C01 C05 C07 C08 C09 C20)"}
+DESIGN = {"codec": "DESIGN.md 5 (C12)","http": "DESIGN.md 5 (C13), Appendix D","conc": "DESIGN.md 3, 4.1, 5 (C02 C03 C11)", "store": "DESIGN.md 3, 4, 5 (C01 C05 C07 C08 C09 C20)"}
 
 hooks_commits = subprocess.run("git -C /repo log --format=%h --grep='^verif hooks' ", shell=True, capture_output=True, text=True).stdout.split()
 
